@@ -301,3 +301,11 @@ def _default_ne(eng, m, args, fr, dty):
     if r.c is not None:
         return Bool(None, not r.c)
     return Bool(z3.Not(r.e))
+
+
+@model(r'^(?:std|core)::slice::from_ref::<.*>$|^(?:std|core)::array::from_ref::<.*>$')
+def _slice_from_ref(eng, m, args, fr, dty):
+    """&T -> &[T] of length one (a view of a copy: the compiler only reads through it)"""
+    from .engine import Slice, Ref, Cell, Vec
+    v = eng.deref(args[0], fr)
+    return Slice(Ref(Cell(Vec([v]))), 0, 1)
